@@ -1,0 +1,41 @@
+//go:build verif
+
+/*
+SPDX-License-Identifier: Apache-2.0
+*/
+
+package introduce
+
+import (
+	"runtime"
+	"time"
+
+	"github.com/hyperledger/aries-framework-go/pkg/didcomm/common/service"
+)
+
+// verifExit is not a state of the protocol: handing it to the listener makes the listener goroutine end (its loop
+// selects on two channels for ever and cannot be left by closing one of them). handle asks a state for its name
+// before anything else: nothing is announced, written or sent.
+type verifExit struct{ noOp }
+
+func (*verifExit) Name() string {
+	runtime.Goexit()
+
+	return stateNameNoop
+}
+
+// VerifStop ends the listener goroutine of a service instance that is not used any more (the service offers no way
+// to stop it). It reports whether the listener took the request (it is idle once VerifBarrier has returned).
+func (s *Service) VerifStop() bool {
+	md := &metaData{state: &verifExit{}, saveMetadata: s.saveMetadata}
+	md.PIID = "verif-stop"
+	md.Msg = service.DIDCommMsgMap{"@id": "verif-id", "@type": AckMsgType}
+	md.msgClone = md.Msg
+
+	select {
+	case s.callbacks <- md:
+		return true
+	case <-time.After(5 * time.Second):
+		return false
+	}
+}
